@@ -3,47 +3,66 @@
    write_netlist mirrors the REPAIRED writer (flip and per-region areas written),
    read_netlist the repaired reader (centre computed after create_stog).
 
-   Status: PARTIAL.  The round trip and the repeatability of writing are proved
-   for every *canonical* design (Yaml/NetlistRoundTrip.v: well-formed modules of
-   every kind with distinct valid names, rectangles with regions, nets of >= 2
-   known members with positive weights, and rectangle order / roles / centres /
-   epsilon that _create_rectangles reproduces).  The full statements quantify
-   over the image of the reader; the missing link is
-   [image_canonical_statement] (every loaded netlist is canonical: invariants
-   of Module.__init__/setup, stability of create_stog's trunk choice once the
-   trunk is in front, permutation invariance of the overlap check and of the
-   smallest distance).  The harness evaluates the conclusion of the full
-   statement on the model for every generated document (Cases/CmpC0405.v: rt_model). *)
-From FrameModel Require Import Num.QcTac Geometry.Rect Yaml.Tree Yaml.NetlistRead Yaml.NetlistWrite
-  Yaml.NetlistRoundTrip.
+   Status: FULL at the level of document trees.  The round trip and the
+   repeatability of writing hold for every netlist in the image of the reader,
+   for every sqrt_o (no contract is needed) and every epsilon state e.
+   Yaml/NetlistRoundTrip.v proves them for canonical designs;
+   Yaml/NetlistImage.v proves that every netlist the reader accepts is
+   canonical: flag flow of Module.__init__/setup whatever the order of the
+   attributes, stability of create_stog's trunk choice once the trunk is in
+   front (Stog/StogStable.v), permutation invariance of the overlap check and
+   of the smallest distance. *)
+From FrameModel Require Import Num.QcTac Geometry.Rect Stog.CreateStog Stog.StogStable
+  Yaml.Tree Yaml.NetlistRead Yaml.NetlistWrite Yaml.NetlistRoundTrip Yaml.NetlistImage.
 Open Scope Qc_scope.
-
-(* the full statements, kept visible *)
-Definition C04_rt_read_write_statement : Prop := forall sqrt_o, rt_read_write_statement sqrt_o.
-Definition C04_rt_idempotent_statement : Prop := forall sqrt_o, rt_idempotent_statement sqrt_o.
 
 (* reading what was written gives the same modules in the same order (names,
    kind flags incl. flip, per-region areas, centres, aspect ratios, rectangles
-   with regions and roles), the same nets (members, weights) and the same epsilons *)
-Theorem C04_rt_read_write_partial : forall sqrt_o e n,
+   with regions and roles), the same nets (members, weights) and the same
+   epsilons: for every netlist n the reader accepts (from any document t,
+   under any epsilon state e) *)
+Theorem C04_rt_read_write : forall sqrt_o e t n,
+  read_netlist sqrt_o e t = Ok n ->
+  exists n', read_netlist sqrt_o e (write_netlist n) = Ok n' /\
+             nl_modules n' = nl_modules n /\ nl_nets n' = nl_nets n /\ nl_eps n' = nl_eps n.
+Proof. exact rt_read_write. Qed.
+Print Assumptions C04_rt_read_write.
+
+(* writing is repeatable: the reloaded design is written as the identical document *)
+Theorem C04_rt_idempotent : forall sqrt_o e t n,
+  read_netlist sqrt_o e t = Ok n ->
+  exists n', read_netlist sqrt_o e (write_netlist n) = Ok n' /\ write_netlist n' = write_netlist n.
+Proof. exact rt_idempotent. Qed.
+Print Assumptions C04_rt_idempotent.
+
+(* the same when the reload runs under the epsilon the first load left behind
+   (load, write, reload in one process without Rectangle.undefine_epsilon()) *)
+Theorem C04_rt_read_write_retained : forall sqrt_o e t n,
+  read_netlist sqrt_o e t = Ok n ->
+  exists n', read_netlist sqrt_o (nl_eps n) (write_netlist n) = Ok n' /\
+             nl_modules n' = nl_modules n /\ nl_nets n' = nl_nets n /\ nl_eps n' = nl_eps n.
+Proof. exact rt_read_write_retained. Qed.
+Print Assumptions C04_rt_read_write_retained.
+
+(* every netlist the reader accepts is canonical *)
+Theorem C04_image_canonical : forall sqrt_o e t n,
+  read_netlist sqrt_o e t = Ok n -> canonical sqrt_o e n.
+Proof. exact image_canonical. Qed.
+Print Assumptions C04_image_canonical.
+
+(* the round trip for canonical designs (not necessarily produced by the reader) *)
+Theorem C04_rt_read_write_canonical : forall sqrt_o e n,
   canonical sqrt_o e n ->
   exists n', read_netlist sqrt_o e (write_netlist n) = Ok n' /\
              nl_modules n' = nl_modules n /\ nl_nets n' = nl_nets n /\ nl_eps n' = nl_eps n.
 Proof. exact rt_canonical. Qed.
-Print Assumptions C04_rt_read_write_partial.
+Print Assumptions C04_rt_read_write_canonical.
 
-(* writing is repeatable: the reloaded design is written as the identical document *)
-Theorem C04_rt_idempotent_partial : forall sqrt_o e n,
+Theorem C04_rt_idempotent_canonical : forall sqrt_o e n,
   canonical sqrt_o e n ->
   exists n', read_netlist sqrt_o e (write_netlist n) = Ok n' /\ write_netlist n' = write_netlist n.
 Proof. exact rt_idempotent_canonical. Qed.
-Print Assumptions C04_rt_idempotent_partial.
-
-(* the full statement follows from the missing link *)
-Theorem C04_rt_read_write_from_image : forall sqrt_o,
-  image_canonical_statement sqrt_o -> rt_read_write_statement sqrt_o.
-Proof. exact rt_read_write_from_image. Qed.
-Print Assumptions C04_rt_read_write_from_image.
+Print Assumptions C04_rt_idempotent_canonical.
 
 (* building blocks that hold for every module / net separately *)
 Theorem C04_module_round_trip : forall m,
@@ -55,3 +74,22 @@ Theorem C04_net_round_trip : forall names e,
   wf_net names e -> parse_edge (write_net e) = Ok (n_members e, n_weight e).
 Proof. exact parse_write_net. Qed.
 Print Assumptions C04_net_round_trip.
+
+(* every module the reader builds is well formed, whatever the order of its attributes *)
+Theorem C04_parsed_module_wf : forall name t m, parse_module name t = Ok m -> wf_module m.
+Proof. exact parse_module_wf. Qed.
+Print Assumptions C04_parsed_module_wf.
+
+(* create_stog run on its own output changes nothing: same order, same roles *)
+Theorem C04_create_stog_stable : forall eps aeps rs flag out,
+  create_stog eps aeps rs = Some (flag, out) -> create_stog eps aeps out = Some (flag, out).
+Proof. exact create_stog_stable. Qed.
+Print Assumptions C04_create_stog_stable.
+
+(* the same on the rectangles of a module as the reader sees them after the
+   write (roles dropped, order kept) *)
+Theorem C04_module_stog_stable : forall eps aeps rs hs fin orig,
+  m_create_stog eps aeps rs = Some (hs, fin, orig) ->
+  m_create_stog eps aeps (map NetlistDerived.reset fin) = Some (hs, fin, fin).
+Proof. exact m_create_stog_stable. Qed.
+Print Assumptions C04_module_stog_stable.
